@@ -23,6 +23,9 @@ type NITask struct {
 	DirVar bool `json:"dir_var,omitempty"`
 	Vars []Entry `json:"vars"`
 	Env  []Entry `json:"env"`
+	// Dotenv: the task has dotenv: ['task.env'] - a file of that name exists in the root dir, d1 and d2,
+	// each defining DV differently; the task prints $DV
+	Dotenv bool `json:"dotenv,omitempty"`
 	// matrix caller: cmds: [{task: m, vars: {TAG: Tag, L: {ref: .List}}}]
 	Caller bool   `json:"caller"`
 	Tag    string `json:"tag"`
@@ -83,6 +86,9 @@ func GenNICase(r *rand.Rand) *NICase {
 			c.GEnv = append(c.GEnv, e)
 		}
 	}
+	if r.Intn(2) == 0 {
+		c.GEnv = append(c.GEnv, callVarGlobalEnv())
+	}
 	c.Parallel = r.Intn(4) == 0
 	if !c.Parallel {
 		c.Combine = []string{"", "", "cmds", "for", "deps"}[r.Intn(5)]
@@ -137,6 +143,7 @@ func GenNICase(r *rand.Rand) *NICase {
 		if r.Intn(4) == 0 {
 			t.Env = append(t.Env, shv("E2", "pwd"))
 		}
+		t.Dotenv = r.Intn(3) == 0
 		c.Tasks = append(c.Tasks, t)
 	}
 	c.Target = r.Intn(nt)
@@ -162,6 +169,16 @@ func perTaskGlobals() []Entry {
 
 func perTaskGlobalEnv() []Entry {
 	return []Entry{tmplv("GT", "e-", "TASK", ""), shv("GS", "echo es-$TASK")}
+}
+
+// a Taskfile-level env entry templated over a variable that only calls supply (leaf is called with V)
+func callVarGlobalEnv() Entry { return tmplv("GRT", "hello-", "V", "") }
+
+func dotenvValue(dir string) string {
+	if dir == "" {
+		return "dot-root"
+	}
+	return "dot-" + dir
 }
 
 func present(es []Entry, names ...string) []string {
@@ -194,7 +211,7 @@ func (c *NICase) yaml() string {
 	sb.WriteString("tasks:\n")
 	sb.WriteString("  m:\n    cmds:\n      - for: {matrix: {X: {ref: \".L\"}}}\n        cmd: " + yq("echo \"@m|i|{{.TAG}}|{{.ITEM.X}}|\"") + "\n")
 	sb.WriteString("  leaf:\n    vars: {R: {sh: " + yq("echo r$V") + "}, R2: {sh: " + yq("echo hello-{{.V}}") + "}}\n    cmds: [" +
-		yq("echo \"@leaf|c|{{.TAG}}|{{.R}}|\"") + ", " + yq("echo \"@leaf|d|{{.TAG}}|{{.R2}}|\"") + "]\n")
+		yq("echo \"@leaf|c|{{.TAG}}|{{.R}}|\"") + ", " + yq("echo \"@leaf|d|{{.TAG}}|{{.R2}}|\"") + ", " + yq("echo \"@leaf|e|{{.TAG}}|$GRT|\"") + "]\n")
 	sb.WriteString("  dtask:\n    env: {DTAG: " + yq("{{.TAG}}") + "}\n    cmds:\n")
 	sb.WriteString("      - defer: " + yq("echo \"@dfr|d|$DTAG|{{.NAME}}|\"") + "\n")
 	sb.WriteString("      - defer: {task: report, vars: {WHO: " + yq("{{.NAME}}") + ", RTAG: " + yq("{{.TAG}}") + "}}\n")
@@ -242,12 +259,18 @@ func (c *NICase) yaml() string {
 		if m := yamlMap(t.Env); m != "" {
 			sb.WriteString("    env: " + m + "\n")
 		}
+		if t.Dotenv {
+			sb.WriteString("    dotenv: ['task.env']\n")
+		}
 		var cmds []string
 		for _, e := range t.Vars {
 			cmds = append(cmds, yq(fmt.Sprintf("echo \"@%s|v|%s|{{.%s}}|\"", t.Name, e.Name, e.Name)))
 		}
 		for _, e := range t.Env {
 			cmds = append(cmds, yq(fmt.Sprintf("echo \"@%s|e|%s|$%s|\"", t.Name, e.Name, e.Name)))
+		}
+		if t.Dotenv {
+			cmds = append(cmds, yq(fmt.Sprintf("echo \"@%s|e|DV|$DV|\"", t.Name)))
 		}
 		for _, n := range c.pgVars() {
 			cmds = append(cmds, yq(fmt.Sprintf("echo \"@%s|v|%s|{{.%s}}|\"", t.Name, n, n)))
@@ -431,6 +454,9 @@ func (c *NICase) outputsOf(out, root string, alone bool) Outputs {
 			if len(f) >= 5 && f[0] == "leaf" && (f[1] == "c" || f[1] == "d") && f[2] == t.Tag {
 				o.Vars = append(o.Vars, f[3])
 			}
+			if len(f) >= 5 && f[0] == "leaf" && f[1] == "e" && f[2] == t.Tag {
+				o.Env = append(o.Env, f[3])
+			}
 		}
 		return o
 	}
@@ -452,6 +478,9 @@ func (c *NICase) outputsOf(out, root string, alone bool) Outputs {
 	}
 	for _, e := range t.Env {
 		o.Env = append(o.Env, get("e/"+e.Name))
+	}
+	if t.Dotenv {
+		o.Env = append(o.Env, get("e/DV"))
 	}
 	for _, n := range c.pgVars() {
 		o.Vars = append(o.Vars, get("v/"+n))
@@ -478,6 +507,11 @@ func (c *NICase) Run() error {
 	}
 	if err := os.WriteFile(filepath.Join(root, "Taskfile.yml"), []byte(c.yaml()), 0o644); err != nil {
 		return err
+	}
+	for _, d := range []string{"", "d1", "d2"} {
+		if err := os.WriteFile(filepath.Join(root, d, "task.env"), []byte("DV="+dotenvValue(d)+"\n"), 0o644); err != nil {
+			return err
+		}
 	}
 	// alone: a fresh Executor (fresh cache, fresh definitions)
 	var out1, err1 lockedBuf
@@ -540,7 +574,7 @@ func (c *NICase) ctxs(order []int) ([]Ctx, int) {
 			if t.Leaf {
 				xs = append(xs, Ctx{Name: "leaf", Special: specials("leaf"), GEnv: c.GEnv, GVars: gv,
 					Call: []Entry{lit("TAG", t.Tag), lit("V", t.Val)}, TVars: []Entry{shv("R", "echo r$V"), shtv("R2", "echo hello-", "V")},
-					RootDir: "ROOT", TaskDir: "ROOT", VProbes: []string{"R", "R2"}})
+					RootDir: "ROOT", TaskDir: "ROOT", VProbes: []string{"R", "R2"}, EProbes: []string{"GRT"}})
 				continue
 			}
 			xs = append(xs, Ctx{Name: "m", Special: specials("m"), GEnv: c.GEnv, GVars: gv,
@@ -559,6 +593,10 @@ func (c *NICase) ctxs(order []int) ([]Ctx, int) {
 		}
 		for _, e := range t.Env {
 			x.EProbes = append(x.EProbes, e.Name)
+		}
+		if t.Dotenv {
+			x.TDot = [][]KV{{{"DV", dotenvValue(t.Dir)}}}
+			x.EProbes = append(x.EProbes, "DV")
 		}
 		x.VProbes = append(x.VProbes, c.pgVars()...)
 		x.EProbes = append(x.EProbes, c.pgEnv()...)
